@@ -402,10 +402,13 @@ func (vc *VC) mergeVals(phi *ssa.Phi, vals []*Val, conds []string) *Val {
 	if allSame {
 		return vals[0]
 	}
-	for _, v := range vals {
-		if (v.Loc != nil && v.T == "") || v.Clo != nil {
-			vc.errorf("%s: phi %s merges addresses or closures known only at translation time (outside subset)", vc.p.fset.Position(phi.Pos()), phi.Name())
+	for i, v := range vals {
+		if v.Clo != nil && v.T == "" {
+			vc.errorf("%s: phi %s merges closures known only at translation time (outside subset)", vc.p.fset.Position(phi.Pos()), phi.Name())
 			return &Val{T: vc.fresh("phi_unsupported", vc.sortOf(phi.Type())), Ty: phi.Type()}
+		}
+		if v.Loc != nil && v.T == "" {
+			vals[i] = vc.materializeAddr(v, phi.Type())
 		}
 	}
 	t := vals[len(vals)-1].T
@@ -1131,11 +1134,32 @@ func (vc *VC) loadVal(l *Loc) *Val {
 // coerce adapts a value to the sort of type t (closures to function ids).
 func (vc *VC) coerce(v *Val, t types.Type) *Val {
 	if v.T == "" && v.Loc != nil {
-		// address known at translation time stored as a first-class value: not representable
-		vc.errorf("address of a variable or field is stored or passed as a value (outside subset)")
-		return &Val{T: vc.fresh("addr", "Int"), Ty: t}
+		return vc.materializeAddr(v, t)
 	}
 	return v
+}
+
+// materializeAddr turns the address of a field or element into an opaque
+// non-nil reference.  The verified code must not read or write through it
+// afterwards (it is only stored or handed on); this is listed as an assumption.
+func (vc *VC) materializeAddr(v *Val, t types.Type) *Val {
+	l := v.Loc
+	if l.Kind != RField && l.Kind != RElem && l.Kind != RCell {
+		vc.errorf("address of a local variable is stored or passed as a value (outside subset)")
+		return &Val{T: vc.fresh("addr", "Int"), Ty: t}
+	}
+	fn := "addrof_" + sanitize(l.Heap)
+	if !vc.declared[fn] {
+		vc.declare(fn, fmt.Sprintf("(declare-fun %s (Int Int) Int)", fn))
+	}
+	idx := l.Idx
+	if idx == "" {
+		idx = "0"
+	}
+	term := fmt.Sprintf("(%s %s %s)", fn, l.Base, idx)
+	vc.assume(fmt.Sprintf("(> %s 0)", term))
+	vc.used.Assumes["the address of a field or element ("+l.Heap+") is stored or handed on as an opaque reference; the verified code does not access memory through it"] = true
+	return &Val{T: term, Ty: t}
 }
 
 func (vc *VC) fieldAddr(fr *Frame, in *ssa.FieldAddr, pos token.Pos) *Val {
